@@ -37,3 +37,89 @@ Theorem c17_each_once : forall tbl none spec info name, In (tbl, none, spec) rou
   NoDup (set_names tbl info).
 Proof. exact each_once. Qed.
 Print Assumptions c17_each_once.
+
+(* ---- the four description routines AS TRANSLATED from security.c (Gen/Sites.v): for EVERY 64-bit summary the run is never stuck and its calls are memset(buf, 0, 256), then
+   snprintf "None" when the summary is 0, otherwise exactly one _libwifi_add_sec_item(buf, &offset, &append, NAME) per flag of the routine's table that is set, in table order - proved by
+   induction over the list of ifs the body is (body_*_shape: the body EQUALS the list built from the table), not by case splits; the (flag, name) tables the control flow walks equal
+   Gen/Tables.v's; no flag or name occurs twice; a non-empty summary without the routine's own flags yields only the memset (empty string).  The three routines that write at buf + offset
+   need buf < 2^63 when the summary is 0 (the sum is a signed pointer addition: code_get_*_refuted).  expected_trace, sec_trace, code_table_* are defined in Proofs/CodeSecStr.v. ---- *)
+From Coq Require Import String.
+From LW Require Import Base.CExpr Gen.Sites Gen.Tables Spec.CodeSpec Proofs.CodeSecStr.
+Local Open Scope string_scope.
+Local Open Scope Z_scope.
+
+Theorem c17_code_get_security_type_calls : forall rho m info F,
+  0 <= info < 2 ^ 64 -> rho "bss->encryption_info" = info -> (12 <= F)%nat ->
+  observe (exec F m rho [] body_libwifi_get_security_type) =
+    Some (None, expected_trace rho info code_table_security_type).
+Proof. exact code_get_security_type_calls. Qed.
+Print Assumptions c17_code_get_security_type_calls.
+
+Theorem c17_code_get_group_ciphers_calls : forall rho m info F,
+  0 <= info < 2 ^ 64 -> rho "bss->encryption_info" = info ->
+  (info = 0 -> wrap u64 (rho "buf") < 2 ^ 63) -> (21 <= F)%nat ->
+  observe (exec F m rho [] body_libwifi_get_group_ciphers) =
+    Some (None, expected_trace rho info code_table_group_ciphers).
+Proof. exact code_get_group_ciphers_calls. Qed.
+Print Assumptions c17_code_get_group_ciphers_calls.
+
+Theorem c17_code_get_pairwise_ciphers_calls : forall rho m info F,
+  0 <= info < 2 ^ 64 -> rho "bss->encryption_info" = info ->
+  (info = 0 -> wrap u64 (rho "buf") < 2 ^ 63) -> (22 <= F)%nat ->
+  observe (exec F m rho [] body_libwifi_get_pairwise_ciphers) =
+    Some (None, expected_trace rho info code_table_pairwise_ciphers).
+Proof. exact code_get_pairwise_ciphers_calls. Qed.
+Print Assumptions c17_code_get_pairwise_ciphers_calls.
+
+Theorem c17_code_get_auth_key_suites_calls : forall rho m info F,
+  0 <= info < 2 ^ 64 -> rho "bss->encryption_info" = info ->
+  (info = 0 -> wrap u64 (rho "buf") < 2 ^ 63) -> (29 <= F)%nat ->
+  observe (exec F m rho [] body_libwifi_get_auth_key_suites) =
+    Some (None, expected_trace rho info code_table_auth_key_suites).
+Proof. exact code_get_auth_key_suites_calls. Qed.
+Print Assumptions c17_code_get_auth_key_suites_calls.
+
+Theorem c17_code_get_security_type_foreign_only : forall rho m info F,
+  0 <= info < 2 ^ 64 -> rho "bss->encryption_info" = info -> (12 <= F)%nat ->
+  info <> 0 -> (forall flag name, In (flag, name) code_table_security_type -> Z.land info flag = 0) ->
+  observe (exec F m rho [] body_libwifi_get_security_type) = Some (None, [memset_event rho]).
+Proof. exact code_get_security_type_foreign_only. Qed.
+Print Assumptions c17_code_get_security_type_foreign_only.
+
+Theorem c17_code_get_group_ciphers_foreign_only : forall rho m info F,
+  0 <= info < 2 ^ 64 -> rho "bss->encryption_info" = info -> (21 <= F)%nat ->
+  info <> 0 -> (forall flag name, In (flag, name) code_table_group_ciphers -> Z.land info flag = 0) ->
+  observe (exec F m rho [] body_libwifi_get_group_ciphers) = Some (None, [memset_event rho]).
+Proof. exact code_get_group_ciphers_foreign_only. Qed.
+Print Assumptions c17_code_get_group_ciphers_foreign_only.
+
+Theorem c17_code_get_pairwise_ciphers_foreign_only : forall rho m info F,
+  0 <= info < 2 ^ 64 -> rho "bss->encryption_info" = info -> (22 <= F)%nat ->
+  info <> 0 -> (forall flag name, In (flag, name) code_table_pairwise_ciphers -> Z.land info flag = 0) ->
+  observe (exec F m rho [] body_libwifi_get_pairwise_ciphers) = Some (None, [memset_event rho]).
+Proof. exact code_get_pairwise_ciphers_foreign_only. Qed.
+Print Assumptions c17_code_get_pairwise_ciphers_foreign_only.
+
+Theorem c17_code_get_auth_key_suites_foreign_only : forall rho m info F,
+  0 <= info < 2 ^ 64 -> rho "bss->encryption_info" = info -> (29 <= F)%nat ->
+  info <> 0 -> (forall flag name, In (flag, name) code_table_auth_key_suites -> Z.land info flag = 0) ->
+  observe (exec F m rho [] body_libwifi_get_auth_key_suites) = Some (None, [memset_event rho]).
+Proof. exact code_get_auth_key_suites_foreign_only. Qed.
+Print Assumptions c17_code_get_auth_key_suites_foreign_only.
+
+Theorem c17_code_get_security_type_table_matches_gen : table_bytes code_table_security_type = sec_table_security_type.
+Proof. exact code_get_security_type_table_matches_gen. Qed.
+Print Assumptions c17_code_get_security_type_table_matches_gen.
+
+Theorem c17_code_get_group_ciphers_table_matches_gen : table_bytes code_table_group_ciphers = sec_table_group_ciphers.
+Proof. exact code_get_group_ciphers_table_matches_gen. Qed.
+Print Assumptions c17_code_get_group_ciphers_table_matches_gen.
+
+Theorem c17_code_get_pairwise_ciphers_table_matches_gen : table_bytes code_table_pairwise_ciphers = sec_table_pairwise_ciphers.
+Proof. exact code_get_pairwise_ciphers_table_matches_gen. Qed.
+Print Assumptions c17_code_get_pairwise_ciphers_table_matches_gen.
+
+Theorem c17_code_get_auth_key_suites_table_matches_gen : table_bytes code_table_auth_key_suites = sec_table_auth_key_suites.
+Proof. exact code_get_auth_key_suites_table_matches_gen. Qed.
+Print Assumptions c17_code_get_auth_key_suites_table_matches_gen.
+
